@@ -148,6 +148,33 @@ def check_all_pairs_angle(run, case, pairs, R, delta, tol, band=1e-9):
     run.check(len(have) == len(pairs), "all-pairs angle: no duplicates", case,
               "duplicate pairs returned", key="allpairs-angle:duplicates")
     lo, hi = delta - tol, delta + tol
+    if n > 200:
+        # the same oracle, one start pose at a time (vectorised over the end poses)
+        R = np.asarray(R, dtype=float)
+        member = np.zeros((n, n), dtype=bool)
+        for (i, j) in have:
+            if 0 <= i < n and 0 <= j < n:
+                member[i, j] = True
+        for i in range(n - 1):
+            M = np.einsum("ab,nac->nbc", R[i], R[i + 1:])  # R_i^T R_j
+            sn = 0.5 * np.sqrt((M[:, 2, 1] - M[:, 1, 2])**2 + (M[:, 0, 2] - M[:, 2, 0])**2 + (M[:, 1, 0] - M[:, 0, 1])**2)
+            a = np.arctan2(sn, 0.5 * (M[:, 0, 0] + M[:, 1, 1] + M[:, 2, 2] - 1.0))
+            got = member[i, i + 1:]
+            run.counters["all-pairs angle: returned pair lies in the band"] += int(np.sum(got))
+            run.counters["all-pairs angle: absent pair lies outside the band"] += int(np.sum(~got))
+            bad_in = got & ((a < lo - band) | (a > hi + band))
+            bad_out = ~got & (a > lo + band) & (a < hi - band)
+            if np.any(bad_in):
+                j = i + 1 + int(np.argmax(bad_in))
+                run.violation("allpairs-angle:outside-band", "pair (%d,%d) has relative angle %r outside "
+                              "[%r, %r]" % (i, j, float(a[j - i - 1]), lo, hi), case)
+                return
+            if np.any(bad_out):
+                j = i + 1 + int(np.argmax(bad_out))
+                run.violation("allpairs-angle:missing-pair", "pair (%d,%d) with relative angle %r inside "
+                              "[%r, %r] is missing" % (i, j, float(a[j - i - 1]), lo, hi), case)
+                return
+        return
     for i in range(n - 1):
         for j in range(i + 1, n):
             a = rm.rot_angle(R[i].T @ R[j])
@@ -301,13 +328,17 @@ def k_random(run, case):
     rng = run.rng(case)
     unit = case.get("unit") or "fmrd"[rng.integers(4)]
     all_pairs = bool(rng.random() < .5)
+    if "all_pairs" in case:
+        all_pairs = bool(case["all_pairs"])
     nmax = {"quick": 150, "thorough": 1200}[run.tier]
-    if case.get("big"):
-        nmax = 3000
     n = int(rng.integers(2, 12) if rng.random() < .3 else rng.integers(2, nmax + 1))
     if unit in "rd" and all_pairs:
-        n = min(n, 300 if not case.get("big") else 1500)
-    arr = gen.traj_arrays(rng, n, stamp_cls="index")
+        n = min(n, 300)
+    if case.get("big"):
+        n = int(rng.integers(1030, 1500)) if (unit in "rd" and all_pairs) else int(rng.integers(1030, 3000))
+    arr = gen.traj_arrays(rng, n, stamp_cls="index") if not case.get("big") else \
+        gen.traj_arrays(rng, n, pos_cls=["walk", "circle"][rng.integers(2)], rot_cls=["smooth", "uniform"][rng.integers(2)],
+                        stamp_cls="index")
     p, R = arr["p"], arr["R"]
     seg = np.linalg.norm(np.diff(p, axis=0), axis=1)
     if unit == "f":
@@ -320,6 +351,8 @@ def k_random(run, case):
         if unit == "d":
             delta = delta * 180 / PI
     rel_tol = [0.0, 0.01, 0.1, 0.5][rng.integers(4)]
+    if case.get("big") and unit in "rd":
+        delta, rel_tol = rng.uniform(0.2, 2.5) * (180 / PI if unit == "d" else 1.0), [0.02, 0.1][rng.integers(2)]
     via = "metrics" if rng.random() < .6 else "filters"
     pairs = run_selection(run, case, p, R, unit, delta, rel_tol, all_pairs, False, via)
     run.seen(case, core.digest(p, R, unit, delta, rel_tol, all_pairs), nontrivial=bool(pairs),
@@ -389,7 +422,85 @@ def k_reuse(run, case):
     run.hit("selections on a re-used, in-place modified pose list judged")
 
 
-KINDS = {"grid": k_grid, "random": k_random, "gridsel": k_replay_grid, "reuse": k_reuse}
+def k_metric_reuse(run, case):
+    """
+    One RPE metric object evaluated twice on the same trajectory objects, which are modified in
+    place in between (scale / reduction / projection / transformation - every PosePath3D
+    operation works in place): the second evaluation must use the pairs selected on the
+    *current* poses (the selection itself is judged by the other kinds of this check).
+    """
+    from evo.core import metrics
+    from evo.core.filters import FilterException
+    from evo.core.trajectory import Plane
+    from evo.core.units import Unit
+    rng = run.rng(case)
+    n = int(rng.integers(4, 50))
+    ref = gen.traj_arrays(rng, n, pos_cls=["walk", "circle", "grid", "intwalk"][rng.integers(4)], stamp_cls="index")
+    est = gen.perturbed_estimate(rng, ref, hostile=False)
+    t_ref = gen.make_evo(ref, "se3" if rng.random() < .5 else "xyzq", bool(rng.random() < .5))
+    t_est = gen.make_evo(est, "se3" if rng.random() < .5 else "xyzq", hasattr(t_ref, "timestamps"))
+    unit = "fmrd"[rng.integers(4)]
+    U = {"f": Unit.frames, "m": Unit.meters, "r": Unit.radians, "d": Unit.degrees}[unit]
+    all_pairs = bool(rng.random() < .5)
+    from_ref = bool(rng.random() < .5)
+    src_arr = ref if from_ref else est
+    if unit == "f":
+        delta = float(rng.integers(1, max(2, n // 2)))
+    elif unit == "m":
+        delta = float(np.sum(np.linalg.norm(np.diff(src_arr["p"], axis=0), axis=1))) * 10.0**rng.uniform(-1.2, -0.3) + 1e-9
+    else:
+        delta = rng.uniform(0.05, 1.5) * (180 / PI if unit == "d" else 1.0)
+    rel = ["translation_part", "rotation_angle_deg", "full_transformation", "point_distance"][rng.integers(4)]
+    m = metrics.RPE(metrics.PoseRelation[rel], delta, U, 0.1, all_pairs, from_ref)
+    with core.quiet():
+        first = contracts.outcome_of(m.process_data, (t_ref, t_est))
+        op = ["scale", "reduce", "project", "transform", "downsample"][rng.integers(5)]
+        if op == "scale":
+            f = float([0.5, 2.0, 3.0, 10.0**rng.uniform(-1, 1)][rng.integers(4)])
+            t_ref.scale(f), t_est.scale(f)
+        elif op == "reduce":
+            ids = sorted(rng.choice(n, size=int(rng.integers(2, n)), replace=False).tolist())
+            t_ref.reduce_to_ids(ids), t_est.reduce_to_ids(ids)
+        elif op == "project":
+            pl = list(Plane)[rng.integers(3)]
+            t_ref.project(pl), t_est.project(pl)
+        elif op == "transform":
+            T = gen.rand_se3(rng, tscale=1.0)
+            t_ref.transform(T, right_mul=True, propagate=bool(rng.random() < .5))
+            t_est.transform(T, right_mul=True, propagate=bool(rng.random() < .5))
+        else:
+            k = int(rng.integers(2, n))
+            t_ref.downsample(k), t_est.downsample(k)
+        second = contracts.outcome_of(m.process_data, (t_ref, t_est))
+        src = t_ref if from_ref else t_est
+        now = [np.array(P, dtype=float) for P in src.poses_se3]
+        want = contracts.outcome_of(metrics.id_pairs_from_delta, now, delta, U, 0.1, all_pairs)
+    c = dict(case, unit=unit, delta=delta, all_pairs=all_pairs, op=op)
+    run.seen(c, core.digest(ref["p"], est["p"], unit, delta, all_pairs, op, from_ref, "metric-reuse"),
+             cls=["metric object re-used after in-place " + op, "metric re-use unit:" + unit],
+             sample={"n": n, "unit": unit, "delta": delta, "all_pairs": all_pairs, "op": op, "first": first[0],
+                     "second": second[0]})
+    if want[0] == "exc":
+        if isinstance(want[1], FilterException):
+            run.check(second[0] == "exc" and isinstance(second[1], FilterException),
+                      "re-used metric: no pair on the current poses -> filter error", c,
+                      "second evaluation gave %r instead of FilterException" % (second[1], ),
+                      key="metric-reuse:wrong-exception")
+        return
+    pairs = [(int(i), int(j)) for i, j in want[1]]
+    if not run.check(second[0] == "ok", "re-used metric: second evaluation succeeds", c,
+                     "second evaluation after in-place %s raised %r" % (op, second[1]), key="metric-reuse:failure"):
+        return
+    got = [int(j) for j in m.delta_ids]
+    run.check(got == [j for _, j in pairs] and len(np.asarray(m.error)) == len(pairs),
+              "re-used metric evaluates the pairs selected on the current poses", c,
+              "after in-place %s the re-used RPE object reports pair ends %s (%d values); the current "
+              "poses select %s" % (op, got[:12], len(np.asarray(m.error)), [j for _, j in pairs][:12]),
+              key="metric-reuse:stale-pairs")
+
+
+KINDS = {"grid": k_grid, "random": k_random, "gridsel": k_replay_grid, "reuse": k_reuse,
+         "metric_reuse": k_metric_reuse}
 
 
 def main(run):
@@ -409,10 +520,13 @@ def main(run):
         k_random(run, run.case("random", i))
     for i in run.mine({"quick": 300, "thorough": 6000}[run.tier]):
         k_reuse(run, run.case("reuse", i))
-    if run.tier == "thorough":
-        for i in run.mine(48):
-            k_random(run, run.case("random", 10**6 + i, big=True))
-    run.need("pairs satisfy 0 <= i < j < N", "frames: exactly the delta pairs",
+    for i in run.mine({"quick": 300, "thorough": 6000}[run.tier]):
+        k_metric_reuse(run, run.case("metric_reuse", i))
+    # sizes beyond typical block / chunk sizes (1024, 2048): a few in the quick tier, more in thorough
+    for i in run.mine({"quick": 8, "thorough": 48}[run.tier]):
+        u, ap = [("r", 1), ("d", 1), ("m", 1), ("f", 1), ("r", 1), ("m", 0), ("d", 0), ("d", 1)][i % 8]
+        k_random(run, run.case("random", 10**6 + i, big=True, unit=u, all_pairs=bool(ap)))
+    run.need("re-used metric evaluates the pairs selected on the current poses", "pairs satisfy 0 <= i < j < N", "frames: exactly the delta pairs",
              "meters consecutive: j is the first pose reaching delta since i",
              "meters consecutive: delta hit exactly by a selected pair",
              "angle consecutive: j is the first pose reaching delta since i",
